@@ -80,6 +80,10 @@ pub struct Profile {
     /// components have array ports that are written `c.pin[e] <== ..` and read `c.pout[e]`
     /// (structural profiles only: the index is any expression over the locals)
     pub port_arrays: bool,
+    /// literals may also be (small multiples of) any of the three curve primes, plus or minus one:
+    /// values that reduce to 0, 1 or p-1 under some curve (totality checks only — the checks that
+    /// interpret programs keep literals below the prime, see DESIGN.md §6)
+    pub literals_beyond_prime: bool,
 }
 
 #[derive(Clone, Debug)]
@@ -126,6 +130,7 @@ impl Profile {
             elementwise_first: false,
             all_compound_ops: false,
             port_arrays: false,
+            literals_beyond_prime: false,
         }
     }
     pub fn sem(template: bool, prime: BigUint) -> Profile {
@@ -163,6 +168,7 @@ impl Profile {
             elementwise_first: false,
             all_compound_ops: false,
             port_arrays: false,
+            literals_beyond_prime: false,
         }
     }
 }
@@ -334,6 +340,18 @@ impl<'a, 'b> Gen<'a, 'b> {
                 Expr::Num { id, text: v.to_string(), value: BigUint::from(v) }
             }
             Some(p) => {
+                if self.p.literals_beyond_prime && self.t.chance(45) {
+                    let primes = crate::field::curve_primes();
+                    let q = primes[self.t.below(3)].1.clone();
+                    let k = BigUint::from(1 + self.t.below(2) as u64);
+                    let value = match self.t.below(4) {
+                        0 | 1 => &q * &k,
+                        2 => &q * &k + BigUint::one(),
+                        _ => &q * &k - BigUint::one(),
+                    };
+                    let text = if self.t.chance(40) { format!("0x{}", value.to_str_radix(16)) } else { value.to_string() };
+                    return Expr::Num { id, text, value };
+                }
                 let value = match self.t.below(4) {
                     0 => BigUint::from(self.t.below(6) as u64),
                     1 => BigUint::from(self.t.below(300) as u64),
